@@ -180,6 +180,9 @@ func (ex *Exec) atExit(st *State, res Val) {
 		st.setRegion("G!"+ga.name, sort, ex.asTerm(v))
 	}
 	for _, en := range ct.ensures {
+		if strings.HasPrefix(en.label, "fatal") {
+			continue // proved where the process is terminated (log.Fatalln), not at normal return
+		}
 		ex.proveEnsures(st, en, e)
 	}
 	if ct.hasMod {
@@ -260,7 +263,7 @@ func (ex *Exec) initGhost(st *State) {
 		"G!donechan": ii, "G!ctxerr": ii, "G!out!#src": ii, "G!out!#by": ii,
 		"G!cb#len": "Int", "G!cb!ret": ii, "G!cb!fn": ii, "G!cb!arg0$Int": ii, "G!cb!arg1$String": arr("Int", "String"),
 		"G!push#len": "Int", "G!push!msg": ii, "G!push!src": ii, "G!pushedat": ii, "G!msgline": arr("Int", "String"), "G!reassstream": ii,
-		"G!lastrecv": "Int", "G!recvd!String": arr("Int", arr("Int", "String")), "G!recvd!Int": arr("Int", ii), "G!tickperiod": ii, "G!tickerof": ii, "G!rdgood": ii, "G!dirent_name": arr("Int", "String"), "G!dirent_isdir": arr("Int", "Bool"), "G!rdlast": "Int", "G!rdcount": "Int", "G!rdrec": ii, "G!rdpos": ii, "G!rdstream": arr("Int", arr("Int", "String")), "G!rdlasterr": ii, "G!rdsrc": ii,
+		"G!lastrecv": "Int", "G!recvd!String": arr("Int", arr("Int", "String")), "G!recvd!Int": arr("Int", ii), "G!tickperiod": ii, "G!tickerof": ii, "G!writtenat": ii, "G!g_stat_info": "Int", "G!g_stat_err": "Int", "G!g_sigctx": "Int", "G!g_fatal": "Bool", "G!filemode": ii, "G!rdgood": ii, "G!dirent_name": arr("Int", "String"), "G!dirent_isdir": arr("Int", "Bool"), "G!rdlast": "Int", "G!rdcount": "Int", "G!rdrec": ii, "G!rdpos": ii, "G!rdstream": arr("Int", arr("Int", "String")), "G!rdlasterr": ii, "G!rdsrc": ii,
 	} {
 		st.region(name, sort)
 	}
